@@ -147,7 +147,7 @@ def _input(draw, labelled, max_obj, max_sp, max_fam, polytomy=False, coherent=Tr
     if draw(st.integers(0, 3)) == 0:
         # colour annotations on object-tree nodes (by pre-order index of all nodes)
         spec["colors"] = {str(draw(st.integers(0, 2 * nobj))): draw(st.sampled_from(
-            ["ff0000", "00aa00"])) for _ in range(draw(st.integers(1, 2)))}
+            ["ff0000", "00aa00", "000000"])) for _ in range(draw(st.integers(1, 2)))}
     if labelled:
         nfam = 1 if single_family else draw(st.integers(3 if chain else 1, max_fam))
         fams = FAMILIES[:nfam]
